@@ -18,12 +18,14 @@ RULE = ('case = a random portfolio S (all LP asset classes + Plant/CHP with min 
         'coarse step = covered fine steps), and the totals over the horizon equal rate x elapsed time. Non-trivial: grid with unequal steps or '
         'u != u\' with a duration-type parameter; distinct = spec hashes.')
 ASSUMPTIONS = ['the plant ramp is converted with the first step\'s length in EAO; ramp on grids with unequal steps is excluded from clause (b)',
-               'start/shutdown ramp profiles are excluded (their default frequency is the main time unit itself)',
+               'start/shutdown ramp profiles take part with an explicit ramp_freq (grid frequency or coarser); the default ramp_freq IS the main unit and therefore legitimately changes with it',
                'durations are generated as multiples of the step so that rounding to steps does not differ between units']
 MIN_NONVACUOUS = {'quick': {'unit.problem_equal': 250, 'unit.value_equal': 200, 'steps.bounds_are_rate_times_elapsed': 375, 'steps.unequal_steps_bounds': 150},
                   'thorough': {'unit.problem_equal': 1500, 'steps.unequal_steps_bounds': 400}}
 RATE_KEYS = ('min_cap', 'max_cap', 'cap_in', 'cap_out', 'inflow', 'cost_store', 'ramp', 'running_costs', 'fix_costs', 'consumption_if_on', 'last_dispatch',
              'min_load_threshhold', 'min_load_costs')
+PROFILE_KEYS = ('start_ramp_lower_bounds', 'start_ramp_upper_bounds', 'shutdown_ramp_lower_bounds', 'shutdown_ramp_upper_bounds', 'start_ramp_lower_bounds_heat',
+                'start_ramp_upper_bounds_heat', 'shutdown_ramp_lower_bounds_heat', 'shutdown_ramp_upper_bounds_heat')
 DUR_KEYS = ('min_runtime', 'min_downtime', 'time_already_running', 'time_already_off', 'max_store_duration')
 
 
@@ -42,6 +44,9 @@ def reexpress(spec, new_unit):
         for k in DUR_KEYS:
             if k in a and a[k] is not None:
                 a[k] = a[k] / fac
+        for k in PROFILE_KEYS:
+            if a.get(k) is not None:
+                a[k] = [v * fac for v in a[k]]          # ramp-profile bounds are rates
         if 'orders' in a:
             a['orders'] = dict(a['orders'], capa=[v * fac for v in a['orders']['capa']])      # order capacity is a rate
         if 'base' in a: conv(a['base'])
@@ -151,9 +156,12 @@ def gen_case(rng):
     base = gen.gen_mixed_portfolio(rng, kinds=kinds, grid_kw={'steps': (4, 24), 'dst': bool(rng.random() < 0.45)}, n_assets=(2, 5), n_nodes=(1, 3))
     spec = gen.strip_private(base)
     for a in spec['assets']:
-        for k in ('start_ramp_lower_bounds', 'start_ramp_upper_bounds', 'shutdown_ramp_lower_bounds', 'shutdown_ramp_upper_bounds', 'ramp_freq', 'start_ramp_lower_bounds_heat',
-                  'start_ramp_upper_bounds_heat', 'shutdown_ramp_lower_bounds_heat', 'shutdown_ramp_upper_bounds_heat'):
-            a.pop(k, None)          # ramp profiles are outside C12 (see assumptions)
+        if a.get('start_ramp_lower_bounds') is not None:
+            # ramp profiles take part with an EXPLICIT profile frequency (the default frequency is the main unit itself, i.e. changes with it):
+            # the grid's frequency or a coarser one (EAO then interpolates the profile onto the grid)
+            g = spec['grid']
+            coarser = [c for c in gen.COARSE_OF.get(g['freq'], []) if not c.endswith('d')]
+            a['ramp_freq'] = gen.pick(rng, coarser) if (coarser and rng.random() < 0.35) else g['freq']
     return spec
 
 
